@@ -609,14 +609,14 @@ class Update(object):
         for name in g0:
             if name not in touched:
                 untouched_ok(name, 'not reported by reread' if name not in changed + removed else 'not named in the command')
-        if hyp_stopping or hyp_killfail:
-            if hyp_stopping and out == ('fault', Faults.STILL_RUNNING):
-                self.known[KNOWN_STOPPING] += 1
-                self.outcomes.add(('stopping-escape',))
-            elif hyp_stopping and out[0] == 'done' and not hyp_killfail:
-                # the STOPPING process happened to be reaped before removeProcessGroup ran: fine
-                pass
-            self.outcomes.add(('outside-hypotheses', bool(hyp_stopping), bool(hyp_killfail), out[0]))
+        if hyp_killfail:
+            self.outcomes.add(('outside-hypotheses', 'killfail', out[0]))
+            return
+        if hyp_stopping and out == ('fault', Faults.STILL_RUNNING):
+            # the known defective behaviour; any other outcome is judged like every other run
+            # (the STOPPING child may have been reaped in time: then update must have converged)
+            self.known[KNOWN_STOPPING] += 1
+            self.outcomes.add(('stopping-escape',))
             return
         if out[0] != 'done':
             replay.update(kind='a fault escaped do_update although every stop succeeded', outcome=out, log=repr(run.log))
